@@ -178,6 +178,250 @@ def image_contract(mod, cls):
     )
 
 
+# ------------------------------------------------------- metadata from path --
+PATH = ext_sort("Path")
+P_OF = fun("pathlib.Path", S, PATH)                 # Path(s)
+P_NAME = fun("Path.name", PATH, S)
+P_SUFFIX = fun("Path.suffix", PATH, S)
+P_PARENT = fun("Path.parent", PATH, PATH)
+P_STR = fun("str_of.Path", PATH, S)                 # str(p)   (same symbol as the executor's str() of an abstract object)
+P_EXISTS = fun("Path.exists", PATH, B)              # file-system query at the time of the call
+P_RESOLVE = fun("Path.resolve", PATH, PATH)
+FILE_FIELDS = ("filename", "file_extension", "file_path", "folder_path")
+
+
+def install_pathlib(reg):
+    """ASSUMED pathlib contract: Path(x) total for str / Path; name, suffix, parent, str() are pure functions of the path;
+    exists() is a file-system query that may raise OSError (natively: ENAMETOOLONG for an over-long component);
+    resolve() is only called on existing paths and may raise OSError / RuntimeError (symlink loops)."""
+    def new_path(ex, st, args, kwargs, node):
+        a = args[0]
+        if isinstance(a, VStr):
+            return [(st, VExt("Path", P_OF(a.t)))]
+        if isinstance(a, VExt) and a.sort == "Path":
+            return [(st, a)]
+        raise E.Unsupported(f"{ex.loc(node)} Path({a!r})")
+    reg.ext_models["pathlib.Path"] = new_path
+    reg.attr_models[("Path", "name")] = lambda ex, st, o: VStr(P_NAME(o.t))
+    reg.attr_models[("Path", "suffix")] = lambda ex, st, o: VStr(P_SUFFIX(o.t))
+    reg.attr_models[("Path", "parent")] = lambda ex, st, o: VExt("Path", P_PARENT(o.t))
+
+    def m_exists(ex, st, o, args, kwargs, node):
+        s2 = st.fork()
+        ex.raise_in(s2, ex.mk_exc("OSError"))
+        return [(st, VBool(P_EXISTS(o.t)))]
+
+    def m_resolve(ex, st, o, args, kwargs, node):
+        for cls in ("OSError", "RuntimeError"):
+            ex.raise_in(st.fork(), ex.mk_exc(cls))
+        return [(st, VExt("Path", P_RESOLVE(o.t)))]
+    reg.method_models[("Path", "exists")] = m_exists
+    reg.method_models[("Path", "resolve")] = m_resolve
+
+
+def p_path():
+    def mk(ex, st, name):
+        return [(None, NONE), (None, VStr(z3.String(name))), (None, VExt("Path", z3.Const(name + "!path", PATH)))]
+    return Maker(mk, desc="None | str | pathlib.Path")
+
+
+def p_file_metadata():
+    def mk(ex, st, name):
+        out = []
+        for fresh in (True, False):
+            d = {f: (NONE if fresh else VStr(z3.String(f"{name}.{f}"))) for f in FILE_FIELDS + ("detected_encoding",)}
+            ref = st.alloc(E.HeapObj("obj", d, "FileMetadataInterface", fresh=False), ex.refs)
+            out.append((None, VRef(ref)))
+        return out
+    return Maker(mk, desc="FileMetadataInterface (fresh: all fields None | arbitrary previous values)")
+
+
+def populate_contract():
+    def path_term(c):
+        a = c.args["path"]
+        if isinstance(a, VStr):
+            return P_OF(a.t)
+        if isinstance(a, VExt):
+            return a.t
+        return None
+
+    def fields(c, st=None):
+        return (st or c.st).obj(c.args["self"].ref).data
+
+    def e_none(c):
+        if c.args["path"] is not NONE:
+            return z3.BoolVal(True)
+        d, d0 = fields(c), fields(c, c.entry)
+        return z3.BoolVal(all(d[f] is d0[f] for f in d0) and d.keys() == d0.keys())
+
+    def e_fresh_none(c):
+        if c.args["path"] is not NONE:
+            return z3.BoolVal(True)
+        d0 = fields(c, c.entry)
+        if not all(d0[f] is NONE for f in FILE_FIELDS):
+            return z3.BoolVal(True)
+        return z3.BoolVal(all(fields(c)[f] is NONE for f in FILE_FIELDS))
+
+    def e_field(f, want):
+        def g(c):
+            pt = path_term(c)
+            if pt is None:
+                return z3.BoolVal(True)
+            v = fields(c)[f]
+            if not isinstance(v, VStr):
+                c.note = f"{f} is not a str after populate_from_path(<path>)"
+                return z3.BoolVal(False)
+            return want(v.t, pt)
+        return g
+
+    return FnContract(
+        target=f"{DT}::FileMetadataInterface.populate_from_path",
+        params=[("self", p_file_metadata()), ("path", p_path())],
+        ensures=[("no-path-leaves-the-fields-untouched", e_none),
+                 ("no-path-on-a-fresh-object-all-four-fields-None", e_fresh_none),
+                 ("filename-is-the-last-path-component", e_field("filename", lambda v, p: v == P_NAME(p))),
+                 ("file_extension-is-the-suffix", e_field("file_extension", lambda v, p: v == P_SUFFIX(p))),
+                 ("file_path-is-the-path-or-its-resolved-form", e_field("file_path", lambda v, p: z3.Or(v == P_STR(p), v == P_STR(P_RESOLVE(p))))),
+                 ("folder_path-is-the-parent-or-its-resolved-form",
+                  e_field("folder_path", lambda v, p: z3.Or(v == P_STR(P_PARENT(p)), v == P_STR(P_RESOLVE(P_PARENT(p))))))],
+        raises=[Raises("OSError", when=lambda c: z3.BoolVal(c.args["path"] is not NONE), label="file-system query failed"),
+                Raises("RuntimeError", when=lambda c: z3.BoolVal(c.args["path"] is not NONE), label="symlink loop in resolve()")],
+        modifies=("self",),
+        note="path None => nothing is set (fresh object: all four None); else name / suffix / path / parent per the assumed pathlib contract",
+    )
+
+
+def file_metadata_defaults(repo, tier):
+    """Ground obligation: the four path fields (and detected_encoding) of FileMetadataInterface default to None, so
+    'no path given' is observable as 'all None' on every metadata object built by an extractor."""
+    from pyvc.flow import ground_obligation
+    mod = dt_module(repo)
+    node = mod.classes.get("FileMetadataInterface")
+    ok, why = False, "class missing"
+    if node is not None:
+        d = {b.target.id: b.value for b in node.body if isinstance(b, ast.AnnAssign) and isinstance(b.target, ast.Name)}
+        bad = [f for f in FILE_FIELDS if not (isinstance(d.get(f), ast.Constant) and d[f].value is None)]
+        ok, why = not bad, ("defaults not None: " + ",".join(bad)) if bad else "filename, file_extension, file_path, folder_path default to None"
+    return {"obligations": [ground_obligation("C04/data_types.py::FileMetadataInterface/module-invariant#path-fields-default-to-None", ok, why, DT,
+                                              kind="module-invariant", backend="ground")], "functions": []}
+
+
+# ------------------------------------------------------ accessor totality --
+STR_ACCESSORS = {"get_text", "get_content_type", "get_caption", "get_description", "get_full_text"}
+ACCESSORS = {
+    "UnitInterface": ("get_text", "get_images", "get_tables", "get_metadata"),
+    "ImageInterface": ("get_content_type", "get_caption", "get_description", "get_metadata"),
+    "TableInterface": ("get_table",),
+    "ExtractionInterface": ("get_metadata",),
+}
+
+
+def is_str_value(c, v):
+    return isinstance(v, VStr)
+
+
+def accessor_contract(mod, cls, name, iface):
+    fnode = mod.functions.get(f"{cls}.{name}")
+    kw = []
+    if fnode is not None:
+        a = fnode.args
+        names = [x.arg for x in a.args[1:]] + [x.arg for x in a.kwonlyargs]
+        kw = [(n, p_bool()) for n in names]       # the only extra parameters of accessors are boolean switches
+
+    def e_str(c):
+        if not isinstance(c.result, VStr):
+            c.note = f"{name}() returns {c.result!r}, not a str, on a well-typed instance"
+        return z3.BoolVal(isinstance(c.result, VStr))
+
+    def e_number(c):
+        """get_metadata().unit_number / image_number is the stored number (positivity: construction sites, part e)."""
+        r = c.result
+        if isinstance(r, VRef) and c.st.obj(r.ref).kind == "obj":
+            return z3.BoolVal(True)
+        if isinstance(r, VExt):
+            return z3.BoolVal(True)
+        c.note = f"{name}() returns {r!r}, not a metadata object"
+        return z3.BoolVal(False)
+
+    ens = []
+    if name in STR_ACCESSORS:
+        ens.append(("returns-str", e_str))
+    if name == "get_metadata":
+        ens.append(("returns-a-metadata-object", e_number))
+    return FnContract(
+        target=f"{DT}::{cls}.{name}",
+        params=[("self", p_ext(cls))] + kw,
+        ensures=ens,
+        raises=[],
+        inline=True,          # callers (get_dim -> get_table, get_metadata -> get_content_type) run the real body
+        note=f"{iface}.{name}() raises nothing on an instance whose fields hold values of their declared types (DT-TYPED)",
+    )
+
+
+def accessor_contracts(mod):
+    out = []
+    for iface, names in ACCESSORS.items():
+        for cls in classes_implementing(mod, iface):
+            for name in names:
+                if f"{cls}.{name}" in mod.functions:
+                    out.append(accessor_contract(mod, cls, name, iface))
+    return out
+
+
+MATCH_OF = {}        # id of a ReMatch term -> group table of its pattern
+
+
+def install_re(reg, mod):
+    """PY-RE: compiled patterns are abstract; match()/search() return None or a match object and never raise; group(k)
+    of a match is a str, or None only for a group that is optional in the pattern text (contracts/c04_regex.py)."""
+    from contracts import c04_regex as R
+    for name in list(mod.assigns):
+        pat = R.pattern_literal(mod, name)
+        if pat is not None:
+            reg.module_consts[(mod.rel, name)] = VExt("RePattern", z3.Const(f"re:{mod.rel.split('/')[-1]}:{name}", ext_sort("RePattern")))
+            PATTERNS[f"re:{mod.rel.split('/')[-1]}:{name}"] = R.groups(pat)
+
+    def m_match(ex, st, o, args, kwargs, node):
+        m = VExt("ReMatch")
+        MATCH_OF[m.t.get_id()] = PATTERNS.get(str(o.t))
+        return [(st.fork(), NONE), (st, m)]
+
+    def m_group(ex, st, o, args, kwargs, node):
+        info = MATCH_OF.get(o.t.get_id())
+        k = args[0].const() if args and isinstance(args[0], VInt) else None
+        g = info.get(k) if info and k is not None else None
+        v = VStr(z3.String(fresh_name("group")))
+        if g is not None:
+            E.STR_GROUP[v.t.get_id()] = g
+        out = [(st, v)]
+        if k != 0 and (g is None or not g["mandatory"]):
+            out.insert(0, (st.fork(), NONE))
+        return out
+    reg.method_models[("RePattern", "match")] = m_match
+    reg.method_models[("RePattern", "search")] = m_match
+    reg.method_models[("ReMatch", "group")] = m_group
+
+
+PATTERNS = {}
+
+
+def odf_length_contract():
+    def e_kind(c):
+        ok = c.result is NONE or isinstance(c.result, VInt)
+        if not ok:
+            c.note = f"_odf_length_to_px returns {c.result!r}"
+        return z3.BoolVal(ok)
+    c = FnContract(
+        target=f"{DT}::_odf_length_to_px",
+        params=[("length", p_opt(p_str()))],
+        ensures=[("returns-int-or-None", e_kind)],
+        raises=[],
+        note="total on every str / None (called by OpenDocumentImage.get_metadata with the width / height texts of the document)",
+    )
+    c.call_outcomes = lambda ctx: [(z3.Bool(fresh_name("no_px")), NONE), (z3.BoolVal(True), VInt(z3.Int(fresh_name("px"))))]
+    return c
+
+
 def install_opaque():
     OP = IfaceExecutor.OPAQUE
 
@@ -200,9 +444,15 @@ def contracts(reg):
         out.append(table_contract(cls))
     for cls in classes_implementing(mod, "ImageInterface"):
         out.append(image_contract(mod, cls))
+    install_pathlib(reg)
+    out.append(populate_contract())
+    out.extend(accessor_contracts(mod))
+    install_re(reg, mod)
+    out.append(odf_length_contract())
     return out
 
 
+EXTRA = [file_metadata_defaults]
 REPLAY_UNKNOWN = True
 TRUSTED = []
 ASSUMED_MODELS = []
